@@ -90,4 +90,17 @@ theorem page_tiles (sorted : List Bytes) (off lim : Nat) :
   rw [← List.drop_drop]
   exact List.take_append_drop lim (sorted.drop off)
 
+/-- what the explorer TUI shows for a realm: everything, or the single page `ListSwamps` hands out
+    (its `Limit` is clamped to 1000 whatever the caller asks for) -/
+def tuiView (cfg : Cfg) (sorted : List Bytes) : List Bytes := if cfg.tuiListsAll then sorted else page sorted 0 1000
+
+theorem tuiView_all (cfg : Cfg) (h : cfg.tuiListsAll = true) (sorted : List Bytes) : tuiView cfg sorted = sorted := by
+  simp [tuiView, h]
+
+/-- a realm with 1001 swamps: one clamped page shows 1000 of them -/
+theorem tuiView_truncates (cfg : Cfg) (h : cfg.tuiListsAll = false) :
+    (tuiView cfg (List.replicate 1001 [])).length = 1000 := by
+  simp only [tuiView, h, Bool.false_eq_true, if_false, page, List.drop_zero, List.length_take, List.length_replicate]
+  decide
+
 end Hv.Storage
